@@ -137,7 +137,8 @@ impl C08 {
                             Obj::new()
                                 .s("algorithm", algo)
                                 .b("pattern", p)
-                                .b("text", t)
+                                .b("text", &t[..t.len().min(2000)])
+                                .u("text_len", t.len() as u64)
                                 .u("find_all_pass_on_this_object", pass as u64)
                                 .s("what", &format!("got {:?} expected {:?}", &v[..v.len().min(40)], &exp[..exp.len().min(40)]))
                                 .done(),
@@ -148,7 +149,7 @@ impl C08 {
                 Err(e) => {
                     ctx.violation(
                         &format!("{}:panic:{}:{}", algo, panic_site(&e), lenclass),
-                        Obj::new().s("algorithm", algo).b("pattern", p).b("text", t).s("what", &e).done(),
+                        Obj::new().s("algorithm", algo).b("pattern", p).b("text", &t[..t.len().min(2000)]).u("text_len", t.len() as u64).s("what", &e).done(),
                     );
                     ok = false;
                 }
@@ -170,7 +171,7 @@ impl Monitor for C08 {
         "C08"
     }
     fn directed(&self, t: Tier) -> u64 {
-        n_patterns(exh_params(t).0) + 12
+        n_patterns(exh_params(t).0) + 14
     }
     fn default_cases(&self, t: Tier) -> u64 {
         self.directed(t)
@@ -253,6 +254,19 @@ impl Monitor for C08 {
                 8 => (b"abcab".to_vec(), b"abcab".to_vec()),
                 9 => (vec![b'a'; 32], vec![b'a'; 65]),
                 10 => (vec![b'a'; 33], vec![b'a'; 65]),
+                12 | 13 => {
+                    // text longer than 2^16 with occurrences on both sides of position 65535
+                    if ctx.tiny() {
+                        return;
+                    }
+                    let p: Vec<u8> = if d == 12 { b"GATTACA".to_vec() } else { (0..64u32).map(|i| b'A' + ((i * 7) % 5) as u8).collect() };
+                    let mut t: Vec<u8> = (0..70_000).map(|_| *rng.pick(b"ACGT")).collect();
+                    for at in [3usize, 65_520, 65_530, 65_536, 66_000, 70_000 - p.len()] {
+                        t[at..at + p.len()].copy_from_slice(&p);
+                    }
+                    ctx.count("texts_longer_than_65536", 1);
+                    (p, t)
+                }
                 _ => (b"GCGCGTACACACCGCCCG".to_vec(), b"GCGCGTACACACCGCCCGGCGCGTACACACCGCCCG".to_vec()),
             };
             if let Some(m) = self.build(ctx, &p) {
